@@ -291,8 +291,9 @@ func init() {
 		c.x.enc.DeclFun("intStr", []string{"Int"}, "Bytes")
 		return c.ret(TV{T: app("intStr", c.t(0)), Ty: tString})
 	})
-	reg("(github.com/initia-labs/OPinit/x/ophost/types.BatchInfo_ChainType).StringWithoutPrefix", "event-attribute formatting helper abstracted as a total pure function of the enum value (A-ENUMSTR: the real body cy.String()[len(prefix):] panics with slice bounds out of range for a value outside BatchInfo_ChainType_name, e.g. 7 -> \"7\"[11:]; reachable through MsgUpdateBatchInfo, whose Validate rejects only UNSPECIFIED; the panic aborts the transaction (A-TX) and is not modelled)", func(c *CallCtx) []Outcome {
+	reg("(github.com/initia-labs/OPinit/x/ophost/types.BatchInfo_ChainType).StringWithoutPrefix", "event-attribute formatting helper abstracted as a pure function of the enum value that panics unless the value is in the generated name table {0,1,2} (A-ENUMSTR: the real body cy.String()[len(prefix):] panics with slice bounds out of range otherwise, e.g. 7 -> \"7\"[11:]; reachable through MsgUpdateBatchInfo, whose Validate rejects only UNSPECIFIED; the panic aborts the transaction (A-TX), so the panicking path is pruned, or is a failed obligation under opt nopanic)", func(c *CallCtx) []Outcome {
 		c.x.enc.DeclFun("chainTypeStr", []string{"Int"}, "Bytes")
+		c.x.panicUnless(c, and(app("<=", "0", c.t(0)), app("<=", c.t(0), "2")), "BatchInfo_ChainType.StringWithoutPrefix")
 		return c.ret(TV{T: app("chainTypeStr", c.t(0)), Ty: tString})
 	})
 	reg("bytes.Equal", "bytes.Equal compares byte values (nil and empty are equal) (A-CMP)", func(c *CallCtx) []Outcome {
